@@ -73,6 +73,11 @@ CHECKS = {
             'Every run enumerates all 1120 signatures with <=3 positional parameters (every trailing-default position), *args, <=2 keyword-only parameters (each with/without default), **kwargs, annotations and async, compiles each from source, wraps it with wraps() and update_wrapper() and compares: inspect.signature(follow_wrapped=False), __name__/__doc__/__module__/__wrapped__, coroutine-ness, and all call shapes (0..n+2 positional x every subset of parameter names + an unknown keyword: 182k calls) - TypeError iff the original raises TypeError, otherwise identical bound arguments (coroutines driven to completion). injected (each parameter, pairs, an absent name) and expected (bare, pair, mapping, mutable default, existing name) are checked on the own signature. Hypothesis adds signatures with up to 6 positional / 4 keyword-only parameters, arbitrary identifiers, rich defaults, string annotations, lambdas and function attributes.',
             'exhaustive: true only for the stated finite core; positional-only parameters out of scope; the known finding (expected bare name after defaults shifts a default) is excused only when names and kinds are intact and exactly that shift happened.',
             'DESIGN.md section 2, C13'),
+    'C06': ('exploration',
+            'Hypothesis-generated component texts / RFC 3986 grammar derivations / arbitrary and salted strings; oracles: strict RFC 3986 per-component syntax + exact re-parse recovery (round trip), reference and urllib unquote (differential), render-parse fixed point (metamorphic), exception-type totality; exhaustive significant-character x component matrix',
+            '(a) random component texts (every RFC delimiter, %, %41, %zz, ;, +, &, =, space, controls, non-ASCII incl. combining and astral) placed in username/password/segments/query keys+values/fragment with registered and unregistered schemes, LDH/IDN/IPv4/IPv6 hosts and ports, built by from_parts and by attribute assignment; the fully quoted text must be ASCII, split by the RFC appendix-B regex into components whose characters are legal at that position, and re-parse to exactly the NFC inputs. Every run also enumerates the full matrix of ~75 significant strings x 6 components x 2 positions. (b) quote_*_part/unquote round trips and unquote against a reference decoder and urllib. (c) URIs and relative references derived from the RFC 3986 grammar: fully quoted (and, when no decoded component contains %, minimally quoted) render(parse) is a fixed point. (d) URL(text)/URL(bytes) return or raise URLParseError only; find_all_links (all option combinations) never raises.',
+            'Trusts the hand-written RFC regexes and urllib.parse.unquote; hosts limited to IDNA-encodable names and IP literals; lone surrogates excluded; a pair with empty key and no value is not representable and not generated.',
+            'DESIGN.md section 2, C06'),
 }
 
 NOT_YET = 'check not built yet in this revision of /verif (work in progress; see DESIGN.md section 8)'
